@@ -152,6 +152,7 @@ def ops_table():
     return [
         ("knot_insert[1]", lambda c: c.knot_insert([F(1)]), True), ("knot_insert[1,1,1,1]", lambda c: c.knot_insert([F(1)] * 4), True),
         ("knot_insert[9]", lambda c: c.knot_insert([F(9)]), True), ("knot_insert[3/2,1/2]", lambda c: c.knot_insert([F(3, 2), F(1, 2)]), True),
+        ("knot_insert[0,3]", lambda c: c.knot_insert([F(0), F(3)]), True),
         ("knot_remove[1]", lambda c: c.knot_remove([F(1)]), True), ("knot_remove[5/7]", lambda c: c.knot_remove([F(5, 7)]), True),
         ("knot_remove[1],None", lambda c: c.knot_remove([F(1)], None), True),
         ("knot_remove[1,1]", lambda c: c.knot_remove([F(1), F(1)]), True), ("knot_remove[2,1]", lambda c: c.knot_remove([F(2), F(1)]), True), ("knot_remove[0]", lambda c: c.knot_remove([F(0)]), True),
@@ -181,6 +182,8 @@ STARTS = {
 # curves without control points: with weights only (D26) and with neither
 STARTS["p1wonly"] = ([F(0), F(0), F(1), F(3), F(3)], None, [F(1), F(2), F(3)])
 STARTS["p2empty"] = ([F(0)] * 3 + [F(1)] + [F(3)] * 3, None, None)
+# a weighted curve with a zero control weight (its weight function has no zero): computing the new control points fails in apply (D28)
+STARTS["p2zero"] = ([F(0)] * 3 + [F(1)] + [F(3)] * 3, [F(1), F(2), F(3), F(4)], [F(1), F(0), F(1), F(1)])
 # a curve with redundant knots: knot 1 stored twice (one copy redundant) and knot 2 redundant, so that a multi-node removal can be
 # possible for its first node and impossible for a later one
 _U0 = [F(0)] * 3 + [F(1)] + [F(3)] * 3
@@ -273,11 +276,11 @@ def tasks(tier, seed):
             for c in range(2):
                 ts.append((task_histories, (start, 2, c, 2)))
             continue
-        if start == "p2rat" and tier == "quick":
+        if start in ("p2rat", "p2zero") and tier == "quick":
             ts.append((task_histories, (start, 1, 0, 1)))
             continue
         for c in range(nch):
-            ts.append((task_histories, (start, depth if start != "p2rat" else 2, c, nch)))
+            ts.append((task_histories, (start, depth if start not in ("p2rat", "p2zero") else 2, c, nch)))
     return ts
 
 
